@@ -3,6 +3,7 @@ package main
 import (
 	"fmt"
 	"os"
+	"strings"
 
 	"github.com/biogo/biogo/align/pals"
 	"github.com/biogo/biogo/align/pals/dp"
@@ -17,14 +18,15 @@ import (
 // C15 — PALS hits are real alignments and planted repeats are found.
 
 type c15Plant struct {
-	A0, A1  int  // source region in the target
-	B0, B1  int  // position of the copy in the (forward) query
-	Reverse bool `json:"reverse_complemented"`
-	Subs    int  `json:"substitutions"`
-	Indels  int  `json:"indels"`
-	NearMin bool `json:"near_minimum_length_not_required"`
-	Short   bool `json:"just_above_minimum_judged_in_aggregate"`
-	Tandem  bool `json:"tandem_copy_close_to_the_main_diagonal"`
+	A0, A1  int    // source region in the target
+	B0, B1  int    // position of the copy in the (forward) query
+	Reverse bool   `json:"reverse_complemented"`
+	Subs    int    `json:"substitutions"`
+	Indels  int    `json:"indels"`
+	NearMin bool   `json:"near_minimum_length_not_required"`
+	Short   bool   `json:"just_above_minimum_judged_in_aggregate"`
+	Tandem  bool   `json:"tandem_copy_close_to_the_main_diagonal"`
+	Block   string `json:"single_block_difference,omitempty"` // 5 substitutions in a row, or a 5-letter insertion or deletion
 }
 
 type c15Plan struct {
@@ -98,17 +100,25 @@ func init() {
 		Case:        c15Case,
 		MinDistinct: func(t string) int { return 150 },
 		Floors: func(string) map[string]int64 {
-			return map[string]int64{"pals_runs": 200, "hits_checked": 250, "planted_repeats": 250, "planted_reverse_strand": 80, "planted_recovered": 250, "self_comparison_runs": 30, "hits_with_errors": 60, "near_minimum_plants": 60, "short_repeats_with_end_substitutions": 40, "tandem_self_repeats": 20}
+			return map[string]int64{"pals_runs": 200, "hits_checked": 250, "planted_repeats": 250, "planted_reverse_strand": 80, "planted_recovered": 250, "self_comparison_runs": 30, "hits_with_errors": 60, "near_minimum_plants": 60, "short_repeats_with_end_substitutions": 40, "tandem_self_repeats": 20, "plants_with_one_block_difference": 60}
 		},
 		Aggregate: func(tier string, c map[string]int64) []obs.Violation {
 			tried := c["short_repeats_recovered"] + c["short_repeats_missed"]
 			missed := c["short_repeats_missed"]
+			var out []obs.Violation
 			if missed >= 6 && missed*10 > tried {
-				return []obs.Violation{{Class: "short-repeat-recall", Brief: fmt.Sprintf("%d of %d planted repeats just above the minimum hit length (two substitutions a few bases inside the ends) were not recovered; on the pinned tree the rate is about 0.2%%", missed, tried)}}
+				out = append(out, obs.Violation{Class: "short-repeat-recall", Brief: fmt.Sprintf("%d of %d planted repeats just above the minimum hit length (two substitutions a few bases inside the ends) were not recovered; on the pinned tree the rate is about 0.2%%", missed, tried)})
 			}
-			return nil
+			for _, kind := range []string{"substitutions", "insertion", "deletion"} {
+				btried, bmissed := c["block_"+kind+"_recovered"]+c["block_"+kind+"_missed"], c["block_"+kind+"_missed"]
+				if bmissed >= 6 && bmissed*20 > btried {
+					out = append(out, obs.Violation{Class: "block-difference-recall", Brief: fmt.Sprintf("%d of %d planted repeats carrying one block of five differences (%s; repeat 1.3..1.9 x the minimum hit length) were not recovered; on the pinned tree the rate is below 1%%", bmissed, btried, kind)})
+				}
+			}
+			return out
 		},
-		Assumptions: []string{"repeats only 2..12 letters longer than the minimum hit length are not reliably recovered even by the unchanged pipeline (about 1 in 700 missed): they are judged as a population - a run is a violation when at least 6 and more than 10% of them are missed", "planted copies do not overlap each other or (in self comparison) their source", "index memory is capped at 48 MB so that Optimise chooses a word size the sandbox can index",
+		Assumptions: []string{"a single block of five differences costs exactly what the aligner's drop-off tolerates, so repeats carrying one (and too short for either arm to make a hit alone) sit on the algorithm's boundary: the unchanged pipeline loses about 1 in 200 of them; they are judged as a population, per kind of block: a run is a violation when at least 6 and more than 5% of one kind are missed",
+			"repeats only 2..12 letters longer than the minimum hit length are not reliably recovered even by the unchanged pipeline (about 1 in 700 missed): they are judged as a population - a run is a violation when at least 6 and more than 10% of them are missed", "planted copies do not overlap each other or (in self comparison) their source", "index memory is capped at 48 MB so that Optimise chooses a word size the sandbox can index",
 			"'comfortably above the threshold' is taken as an error rate of at most min(1-minId-0.04, 0.03) (two substitutions for the short repeats just above the minimum length, where 1-minId-0.04 allows them); 'most of the planted copy' as 80%"},
 	})
 }
@@ -162,6 +172,15 @@ func c15Case(r *obs.Run, i int) {
 	}
 	for k := 0; k < nplant; k++ {
 		L := int(float64(pl.MinHitLen) * (1.2 + 2.8*rng.Float64()))
+		// one block of differences as costly as the aligner's drop-off allows (5 letters), in a repeat too short for
+		// either side of the block to make a hit on its own
+		block := ""
+		if rng.Intn(4) == 0 {
+			lb := int(float64(pl.MinHitLen) * (1.3 + 0.6*rng.Float64()))
+			if 5.0/float64(lb) <= 1-pl.MinID-0.04 {
+				L, block = lb, []string{"substitutions", "insertion", "deletion", "deletion"}[rng.Intn(4)]
+			}
+		}
 		if L+40 > pl.TLen/3 || L+40 > pl.QLen/3 {
 			continue
 		}
@@ -184,7 +203,28 @@ func c15Case(r *obs.Run, i int) {
 		}
 		p := c15Plant{A0: a0, A1: a0 + L, B0: b0, Reverse: rng.Intn(2) == 0}
 		w := append([]byte(nil), T[a0:a0+L]...)
-		if rng.Intn(3) != 0 {
+		if block != "" {
+			p.Block = block
+			pos := L/4 + rng.Intn(L/2)
+			if rng.Intn(3) != 0 { // beyond the middle of the repeat, where the forward extension has to cross it
+				pos = L/2 + rng.Intn(L/4)
+			}
+			switch block {
+			case "substitutions":
+				for x := pos; x < pos+5; x++ {
+					w[x] = "ACGT"[(strings.IndexByte("ACGT", w[x])+1+rng.Intn(3))%4]
+				}
+				p.Subs = 5
+			case "insertion":
+				ins := []byte{"ACGT"[rng.Intn(4)], "ACGT"[rng.Intn(4)], "ACGT"[rng.Intn(4)], "ACGT"[rng.Intn(4)], "ACGT"[rng.Intn(4)]}
+				w = append(w[:pos], append(ins, w[pos:]...)...)
+				p.Indels = 5
+			default:
+				w = append(w[:pos], w[pos+5:]...)
+				p.Indels = 5
+			}
+			r.Count("plants_with_one_block_difference", 1)
+		} else if rng.Intn(3) != 0 {
 			p.Subs = int(rng.Float64() * maxRate * float64(L))
 			w = c14Mutate(rng, w, p.Subs)
 			if r.Thorough() && rng.Intn(2) == 0 && p.Subs >= 2 {
@@ -431,6 +471,14 @@ func c15Case(r *obs.Run, i int) {
 		if !found && p.Short {
 			// repeats only just above the minimum length are judged as a population (see Aggregate)
 			r.Count("short_repeats_missed", 1)
+			continue
+		}
+		if p.Block != "" { // likewise (see the assumptions)
+			if found {
+				r.Count("block_"+p.Block+"_recovered", 1)
+			} else {
+				r.Count("block_"+p.Block+"_missed", 1)
+			}
 			continue
 		}
 		if !found {
